@@ -1497,7 +1497,7 @@ def lockorder_supplement(tier, seed, jobs):
         env = dict(os.environ); env["RXH_LOCKCERT"] = "3"
         try:
             p = subprocess.run([RXH_CONC, str(seed), str(iters), "mixed"], input="\n".join(chunk) + "\n", stdout=subprocess.PIPE,
-                               stderr=subprocess.DEVNULL, text=True, timeout=3000, env=env)
+                               stderr=subprocess.DEVNULL, text=True, timeout=(3000 if thorough else 400), env=env)
             return p.stdout.split("\n")
         except subprocess.TimeoutExpired:
             return ["%s | seed=0 n=0 strat=mixed | out=timeout  | " % c.split()[1] for c in chunk]
